@@ -259,7 +259,7 @@ def emit_base(d, world, acts, base_side):
 
 GADGET_SHAPES = ("create_create_same", "create_create_diff", "edit_edit", "edit_delete", "delete_delete",
                  "rename_edit", "rename_rename", "create_rename_onto", "file_vs_folder", "mkdir_mkdir",
-                 "rmdir_create_inside", "dirmove_create_inside", "rmtree_create_inside")
+                 "rmdir_create_inside", "dirmove_create_inside", "rmtree_create_inside", "rename_delete", "dirmove_rmtree")
 
 
 def emit_gadget(d, world, acts, shapes=GADGET_SHAPES):
@@ -313,6 +313,19 @@ def emit_gadget(d, world, acts, shapes=GADGET_SHAPES):
         elif shape == "rmdir_create_inside" and empty_dirs:
             g = d.choice(empty_dirs)
             ops = [[a, "delete", g], [b, "create", g + "/" + d.choice(NAMES), world.new_content()]]
+        elif shape == "rename_delete" and files and news:
+            f = d.choice(files); n1 = d.choice(news)
+            ops = [[a, "rename", f, n1], [b, "delete", f]]
+        elif shape == "dirmove_rmtree":
+            # a folder with content is renamed on one side and removed (with its content) on the other
+            full = [g for g in sdirs if t0.subtree(g) and g not in used_as_parent
+                    and all(world.settled_untouched(q) and q not in used_as_parent for q in t0.subtree(g))]
+            if full and news:
+                g = d.choice(full)
+                h = max([depth(q) for q in t0.subtree(g)]) - depth(g)
+                cand = [n for n in news if not n.startswith(g + "/") and depth(n) + h <= MAX_DEPTH]
+                if cand:
+                    ops = [[a, "rename", g, d.choice(cand)], [b, "rmtree", g]]
         elif shape == "rmtree_create_inside":
             # a folder TREE (at least two levels) is removed on one side while the other side puts a new file into its
             # deepest folder
